@@ -154,7 +154,9 @@ func conv(d drive.TypeDesc, v model.Value) verdict {
 		return must(ifaceNorm(v))
 	case "stringer":
 		return errOnly
-	case "ptr":
+	case "ptr", "ifaceptr":
+		// ifaceptr: an interface{} that already holds a non-nil pointer is decoded
+		// into what the pointer points to (as encoding/json does)
 		return conv(*d.Elem, v)
 	case "slice":
 		if v.Kind == model.List || v.Kind == model.Sexp {
@@ -327,6 +329,9 @@ func runC17(c C17Case) string {
 	}
 	return drive.Guard2(func() string {
 		target := reflect.New(typ)
+		if c.T.K == "ifaceptr" {
+			target.Elem().Set(reflect.New(drive.GoType(*c.T.Elem)))
+		}
 		var err error
 		switch c.Via {
 		case 1:
@@ -488,6 +493,11 @@ func c17Targets() []drive.TypeDesc {
 	// two fields whose names differ only by case: an exact match must win
 	out = append(out, drive.TypeDesc{K: "struct", Fields: []drive.FieldDesc{{Name: "Id", T: td("int")}, {Name: "ID", T: td("int")}}},
 		drive.TypeDesc{K: "struct", Fields: []drive.FieldDesc{{Name: "A", Tag: "key", T: td("string")}, {Name: "B", Tag: "Key", T: td("string")}, {Name: "C", Tag: "KEY", T: td("string")}}})
+	// interface{} targets that already hold a pointer
+	for _, e := range []drive.TypeDesc{td("int8"), td("string"), td("bigint"), td("iface"), wrap("ptr", td("uint16"), 0), wrap("slice", td("int"), 0), wrap("map", td("string"), 0),
+		{K: "struct", Fields: []drive.FieldDesc{{Name: "F", T: td("int32")}, {Name: "G", Tag: "g", T: td("string")}}}} {
+		out = append(out, wrap("ifaceptr", e, 0))
+	}
 	three := drive.TypeDesc{K: "struct", Fields: []drive.FieldDesc{{Name: "X", T: td("int")}, {Name: "Y", T: td("int")}, ann}}
 	out = append(out, wrap("slice", three, 0))
 	out = append(out, wrap("slice", wrap("slice", td("int"), 0), 0), wrap("map", wrap("slice", td("int"), 0), 0),
